@@ -263,3 +263,13 @@ pub fn check() -> Check {
         stub: STUB_SIM.to_vec(),
     }
 }
+
+pub fn selftest(seed: u64, i: usize) -> Scenario {
+    let n = names(2);
+    let name = &n[i % n.len()];
+    if i % 20 < 10 {
+        rx_scenario(name, vec![Req { action: (i % 9) as u8, first: name.clone(), second: "other.txt".into() }], 2, 2)
+    } else {
+        tx_scenario(name, 4)
+    }
+}
